@@ -45,11 +45,13 @@ def make_1d(rng, nb=None, read_edges=None):
         kw["weights"] = np.asarray([rng.randint(1, 16) / 4 for _ in range(n)], dtype=float)
     if rng.random() < 0.15:
         kw["keep_missed"] = False
-    if not gapped and rng.random() < 0.1:
+    if not gapped and rng.random() < 0.15:
         # float32 contents whose partial sums are float32 numbers only if they are formed exactly (2**24 + 1 + 1)
         from physt.histogram1d import Histogram1D
 
         vals = np.array([rng.choice([2.0**24, 1.0, 1.0, 5.0, 3.0]) for _ in range(len(pairs))], dtype=np.float32)
+        if len(vals) >= 4 and rng.random() < 0.6:
+            vals[0], vals[-1] = 2.0**24, 2.0**24  # what a slice cuts off on either side starts / ends with the big one
         h = Histogram1D(np.array([p[0] for p in pairs] + [pairs[-1][1]]), vals, name="src", axis_name="x")
     elif not gapped and rng.random() < 0.12:
         # integer contents far beyond 2**53 (given directly): the bookkeeping of what a slice cuts off stays exact
